@@ -1,11 +1,11 @@
 package rules
 
 import (
-	"strconv"
 	"fmt"
 	"go/token"
 	"go/types"
 	"sort"
+	"strconv"
 	"strings"
 
 	"golang.org/x/tools/go/ssa"
